@@ -16,7 +16,7 @@ from ..sx import SIntZ
 PROGRAMS = [
     'function f(a, b) { var c = a + b; if (c) { return { k: [c, , 1], get g() { return c; } }; } else { switch (a) { case 1: b++; default: c--; } } }',
     'var x = function(y) { try { throw y; } catch (e) { for (var i = 0; i < 3; i++) { x(i); } } finally { while (0); } };',
-    'a = [, , 1, , ];',
+    'a = [, , 1, , ]; s = "x\\\ny" + \'p\\\r\nq\' + /r\\/e/g.source + 0x1F + 1.50e+3;',
 ]
 CONFIGS = ['pretty', 'minobf', 'obfindent', 'dropsemi', 'minobfglobals']
 
